@@ -242,16 +242,25 @@ def check_cycles_rules(ctx, rep, rule):
     """R15.5 both forms of check_cycles; consumers iterate in the generator's order"""
     r = ctx.roles
     p = ctx.prog
+    class CyclesModel(GraphModel):
+        # `return all(c(x) for x in S)` is read as the search loop it is
+        desugar_all_any = True
     forms = []
     for cls in [r.sched] + r.nestable:
-        # (an override that only hands over to the parent's implementation is that implementation)
+        # (an override that only hands over to the parent's implementation is that implementation); the same
+        # function may have to be read once per class of `self`, when it calls a hook that subclasses override
         f = p.effective_supplier(cls, 'check_cycles')
-        if f is not None and f not in forms:
-            forms.append(f)
+        hooks = {n.func.attr for n in ast.walk(f.node) if isinstance(n, ast.Call) and isinstance(n.func, ast.Attribute)
+                 and isinstance(n.func.value, ast.Name) and n.func.value.id == 'self'
+                 and len(p.dispatch_set(r.sched, n.func.attr)) > 1} if f is not None else set()
+        key = (f, cls if hooks else None)
+        if f is not None and key not in forms:
+            forms.append(key)
     rep.need(rule, len(forms), 1, "check_cycles implementations")
-    for f in forms:
-        an, ip, out = ctx.explore(f, model=GraphModel)
-        fn = f.qualname
+    for f, as_cls in forms:
+        an, ip, out = ctx.explore(f, model=CyclesModel, self_cls=as_cls)
+        fn = f.qualname if as_cls is None else "%s (self: %s)" % (f.qualname, as_cls.name)
+        form_cls = as_cls or f.cls
         rets = an.events('RET')
         rep.need(rule + ":" + fn, len(rets), 2, "returns")
         for e in rets:
@@ -301,7 +310,7 @@ def check_cycles_rules(ctx, rep, rule):
                            and isinstance(getattr(n, '_parent', None), (ast.For, ast.comprehension))]
         rep.check(bool(loops_over_topo), rule, "%s scans with topological_order()" % fn, fn,
                   "no loop over self.topological_order()", "cycles are not looked for at all")
-        if f.cls in r.nestable or (f.cls is not r.sched):
+        if form_cls in r.nestable or (form_cls is not r.sched):
             # the recursive form: every nested member's own verdict is consulted
             def flat(st):
                 """path facts, with the alternatives of folded search loops opened up"""
